@@ -7,6 +7,7 @@ import (
 	"go/ast"
 	"go/token"
 	"go/types"
+	"os"
 	"sort"
 	"strings"
 
@@ -150,6 +151,108 @@ func (c *Ctx) mutableFields(n *types.Named) []*types.Var {
 		}
 	}
 	return out
+}
+
+// monitorParts: when n is a struct that carries a mutex (directly or in an embedded private
+// struct) and every post-construction write of every field of n and of its embedded parts lies
+// inside a lock region of that mutex, n is a monitor: the named types of its embedded parts (and
+// n itself) are returned; their mutable fields are synchronised state.  nil otherwise.
+func (c *Ctx) monitorParts(n *types.Named) map[*types.TypeName]bool {
+	st := structOf(n)
+	if st == nil {
+		return nil
+	}
+	var mutexF *types.Var
+	for _, f := range flatFields(n) {
+		if isSyncType(f.Type()) {
+			if _, isPtr := f.Type().(*types.Pointer); !isPtr {
+				mutexF = f
+			}
+		}
+	}
+	if mutexF == nil {
+		return nil
+	}
+	fw := c.fieldWrites()
+	graphs := map[*ast.FuncDecl]*lockInfo{}
+	writes := 0
+	for _, f := range flatFields(n) {
+		for _, w := range fw[f.Origin()] {
+			if w.In == nil || w.In.Body == nil {
+				return nil
+			}
+			info := c.infoFor(w.In)
+			if info == nil {
+				return nil
+			}
+			li := graphs[w.In]
+			if li == nil {
+				li = computeLock(newFG(info, w.In.Body), info, objKey(mutexF))
+				graphs[w.In] = li
+			}
+			if held, ok := li.heldAt(&ast.Ident{NamePos: w.Pos, Name: "_"}); !ok || !held {
+				return nil
+			}
+			writes++
+		}
+	}
+	if writes == 0 {
+		return nil
+	}
+	// and every read of a field that is written lies under the lock too
+	role := c.roleOf(n.Obj().Pkg())
+	for _, f := range flatFields(n) {
+		if len(fw[f.Origin()]) == 0 {
+			continue
+		}
+		unguarded := false
+		for _, fd := range c.allFuncDecls(role) {
+			info := c.infoFor(fd)
+			if info == nil {
+				continue
+			}
+			ast.Inspect(fd.Body, func(x ast.Node) bool {
+				se, ok := x.(*ast.SelectorExpr)
+				if !ok || selectorField(info, se) != f.Origin() {
+					return true
+				}
+				li := graphs[fd]
+				if li == nil {
+					li = computeLock(newFG(info, fd.Body), info, objKey(mutexF))
+					graphs[fd] = li
+				}
+				if held, ok := li.heldAt(se); !ok || !held {
+					unguarded = true
+					if os.Getenv("VCHECK_DEBUG_MONITOR") != "" {
+						fmt.Fprintf(os.Stderr, "monitor %s: unguarded %s in %s at %s (located=%v)\n", n.Obj().Name(), exprStr(se), fd.Name.Name, c.pos(se.Pos()), ok)
+					}
+				}
+				return true
+			})
+		}
+		if unguarded {
+			return nil
+		}
+	}
+	parts := map[*types.TypeName]bool{n.Origin().Obj(): true}
+	var walk func(t *types.Named, depth int)
+	walk = func(t *types.Named, depth int) {
+		ts, ok := t.Origin().Underlying().(*types.Struct)
+		if !ok || depth > 2 {
+			return
+		}
+		for i := 0; i < ts.NumFields(); i++ {
+			f := ts.Field(i)
+			if en := derefNamed(f.Type()); f.Embedded() && en != nil && en.Obj().Pkg() == n.Obj().Pkg() && !en.Obj().Exported() {
+				if _, isStruct := en.Underlying().(*types.Struct); isStruct {
+					parts[en.Origin().Obj()] = true
+					walk(en, depth+1)
+				}
+			}
+		}
+	}
+	walk(n, 0)
+	return parts
 }
 
 // ---------------------------------------------------------------- lock regions
@@ -384,6 +487,7 @@ func (c *Ctx) searchFrom(root types.Type, rootName string, allow func(t types.Ty
 		path string
 	}
 	seen := map[string]bool{}
+	monitored := map[*types.TypeName]bool{} // structs all of whose writes lie under the mutex they carry, and their embedded parts
 	work := []item{{root, rootName}}
 	for len(work) > 0 {
 		it := work[0]
@@ -406,7 +510,12 @@ func (c *Ctx) searchFrom(root types.Type, rootName string, allow func(t types.Ty
 				if target != nil && n.Origin() == target.Origin() {
 					return it.path + " -> " + n.Obj().Name(), "reaches " + n.Obj().Name()
 				}
-				if mf := c.mutableFields(n); target == nil && len(mf) > 0 {
+				if parts := c.monitorParts(n); parts != nil {
+					for tn := range parts {
+						monitored[tn] = true
+					}
+				}
+				if mf := c.mutableFields(n); target == nil && len(mf) > 0 && !monitored[n.Origin().Obj()] {
 					var names []string
 					for _, f := range mf {
 						w := c.fieldWrites()[f.Origin()][0]
